@@ -243,6 +243,7 @@ type vScenario struct {
 	viewFirst map[string]string
 	nextFile int
 	convNames []string
+	orphanFlag map[string]bool
 }
 
 func (s *vScenario) fid(name string) string {
